@@ -121,7 +121,11 @@ func VerifC17Write(v *verifrt.T) {
 	if v.Symbolic() {
 		conn = &Conn{socket: sock, reader: sniffer{source: sock}, limit: new(rate.Limiter)}
 	} else {
-		conn = &Conn{socket: sock, reader: sniffer{source: sock}, limit: rate.New(1, time.Hour)}
+		// natively the real limiter runs; its allowance is set before every Write so that it
+		// answers what the executor's draw for that call says (rate 0: nothing accrues by itself)
+		conn = &Conn{socket: sock, reader: sniffer{source: sock}, limit: rate.New(1, time.Second)}
+		verifrt.SetUnexported(conn.limit, "rate", uint64(0))
+		verifrt.SetUnexported(conn.limit, "max", uint64(1)<<62)
 	}
 	n := v.Bound("writes")
 	var want []byte
@@ -131,6 +135,9 @@ func VerifC17Write(v *verifrt.T) {
 		}
 		p := v.Bytes(1+v.Choice(2, "wlen", i), "w"+string(rune('0'+i)))
 		want = append(want, p...)
+		if !v.Symbolic() {
+			verifrt.SetUnexported(conn.limit, "allowance", verifrt.IteU64(v.Bool("throttle", i+1), 0, uint64(time.Second)))
+		}
 		k, err := conn.Write(p)
 		v.Assert(err == nil && k >= 0, "C17.write.accepted")
 		v.Assert(bytes.Equal(append(append([]byte(nil), sock.out...), conn.writer.Bytes()...), want), "C17.write.socket-plus-queue-is-what-was-written")
